@@ -66,6 +66,8 @@ type c15Conn struct {
 	stepNo, stallAt int
 	released        func() bool
 	Stalls          *int
+	// writesBegun counts, per phase, the modifying store operations this node has arrived at (before they take effect)
+	writesBegun int
 }
 
 func (c *c15Conn) step(op, key string, write bool) (apply bool, after func(), err error) {
@@ -73,6 +75,9 @@ func (c *c15Conn) step(op, key string, write bool) (apply bool, after func(), er
 		return false, func() {}, errC15NodeDown
 	}
 	c.stepNo++
+	if write {
+		c.writesBegun++
+	}
 	if c.stallAt > 0 && c.stepNo == c.stallAt && c.released != nil && !c.released() {
 		if c.Stalls != nil {
 			*c.Stalls++
@@ -316,6 +321,10 @@ type c15Plan struct {
 	// Stall, per phase: the node of the phase's first operation stops at its Stall-th store operation until the other
 	// operations of the phase have returned (0 = no stall)
 	Stall []int `json:"stall,omitempty"`
+	// StallRelease, per phase: 0 = the stalled node goes on when the other operations of the phase have returned;
+	// k > 0 = already when another node of the phase arrives at its k-th modifying store operation (the slow node's
+	// next step then races with the other node's recovery work)
+	StallRelease []int `json:"stall_release,omitempty"`
 }
 
 var c15DBs = []string{"db1", "db2", "db3"}
@@ -458,6 +467,9 @@ func c15Generate(seed uint64, tier string, index int) json.RawMessage {
 				if r.Chance(500) {
 					op.DB = phase[0].DB
 				}
+				if r.Chance(250) {
+					op = c15Op{Kind: "load", Node: op.Node} // the other node loads while the first one changes
+				}
 			}
 			phase = append(phase, op)
 		}
@@ -476,6 +488,22 @@ func c15Generate(seed uint64, tier string, index int) json.RawMessage {
 		if r.Chance(500) {
 			p.Phases[1][0], p.Phases[1][1] = p.Phases[1][1], p.Phases[1][0]
 		}
+	} else if index%8 == 5 {
+		// directed: a slow node (it stops at one of the steps of its update for longer than a loader waits for a
+		// promised version) and a node that loads meanwhile and rolls the registry back; the slow node goes on when
+		// the loader arrives at one of its modifying steps, so that its next step races with the roll-back
+		kind := []string{"update", "update", "create", "delete"}[r.Intn(4)]
+		p.Phases = [][]c15Op{
+			{{Kind: "create", Node: 0, DB: "db1", Colls: []string{"c1", "c2"}}},
+			{{Kind: kind, Node: 0, DB: "db1", Colls: []string{"c1", "c3"}}, {Kind: "load", Node: 1}},
+		}
+		if kind == "create" {
+			p.Phases[1][0].DB = "db2"
+			p.Phases[1][0].Colls = []string{"c3"}
+		}
+		p.NoLoad = []bool{false, false}
+		p.Stall = []int{0, r.Range(2, 7)}
+		p.StallRelease = []int{0, r.Range(1, 3)}
 	} else {
 		for _, phase := range p.Phases {
 			st := 0
@@ -483,6 +511,12 @@ func c15Generate(seed uint64, tier string, index int) json.RawMessage {
 				st = r.Range(1, 8)
 			}
 			p.Stall = append(p.Stall, st)
+			p.StallRelease = append(p.StallRelease, []int{0, 0, 1, 1, 2, 3}[r.Intn(6)])
+		}
+	}
+	if len(p.StallRelease) == 0 {
+		for range p.Phases {
+			p.StallRelease = append(p.StallRelease, []int{0, 0, 1, 1, 2, 3}[r.Intn(6)])
 		}
 	}
 	if index%2 == 1 {
@@ -561,6 +595,27 @@ func c15Run(env *verifsim.Env, raw json.RawMessage) *verifsim.Violation {
 			})
 		case "delete":
 			out.err = n.bc.DeleteConfig(ctx, c15Bucket, c15Group, op.DB)
+		case "load":
+			// a node loads the configurations while another one changes them (it may repair or roll back what it finds);
+			// what it is given must be complete versions that were written as such
+			var cfgs []*DatabaseConfig
+			cfgs, out.err = n.bc.GetDatabaseConfigs(ctx, c15Bucket, c15Group)
+			out.isLoad = true
+			for _, cfg := range cfgs {
+				mu.Lock()
+				gv, known := generated[cfg.Version]
+				mu.Unlock()
+				var colls []string
+				for _, sc := range cfg.Scopes {
+					for c := range sc.Collections {
+						colls = append(colls, c)
+					}
+				}
+				if !known || gv.db != cfg.Name || gv.colls != collsKey(colls) {
+					out.loadMixture = fmt.Sprintf("node %d, loading while another node changes configurations, was given %s version %s with collections [%s]; that version was written as %+v", op.Node, cfg.Name, cfg.Version, collsKey(colls), gv)
+				}
+			}
+			s.Probe("c15.concurrent-load")
 		}
 		out.crashed = n.conn.dead
 		rec.End(out.version, out.err)
@@ -709,13 +764,30 @@ func c15Run(env *verifsim.Env, raw json.RawMessage) *verifsim.Violation {
 		outs := make([]outcome, len(phase))
 		othersDone := 0
 		for i := range nodes {
-			nodes[i].conn.stepNo, nodes[i].conn.stallAt, nodes[i].conn.released = 0, 0, nil
+			nodes[i].conn.stepNo, nodes[i].conn.stallAt, nodes[i].conn.released, nodes[i].conn.writesBegun = 0, 0, nil, 0
 		}
 		if pi < len(p.Stall) && p.Stall[pi] > 0 && len(phase) > 1 {
 			c := nodes[phase[0].Node].conn
 			c.stallAt, c.Stalls = p.Stall[pi], &stalls
 			nOthers := len(phase) - 1
-			c.released = func() bool { return othersDone >= nOthers }
+			relAt := 0
+			if pi < len(p.StallRelease) {
+				relAt = p.StallRelease[pi]
+			}
+			stalled := phase[0].Node
+			c.released = func() bool {
+				if othersDone >= nOthers {
+					return true
+				}
+				if relAt > 0 {
+					for i := range nodes {
+						if i != stalled && nodes[i].conn.writesBegun >= relAt {
+							return true
+						}
+					}
+				}
+				return false
+			}
 		}
 		for oi, op := range phase {
 			oi, op := oi, op
@@ -778,7 +850,14 @@ func c15Run(env *verifsim.Env, raw json.RawMessage) *verifsim.Violation {
 				crashedUpdate[o.op.DB] = true
 			}
 		}
-		pendingOuts = append(pendingOuts, outs...)
+		for _, o := range outs {
+			if o.isLoad && o.loadMixture != "" {
+				return verifsim.Vf("C15", "mixture", "phase %d: %s: the loaded configuration is neither a complete previous nor a complete new one", pi, o.loadMixture)
+			}
+			if !o.isLoad {
+				pendingOuts = append(pendingOuts, o)
+			}
+		}
 		if pi < len(p.NoLoad) && p.NoLoad[pi] && !lastPhase {
 			continue
 		}
@@ -879,6 +958,9 @@ type c15Outcome struct {
 	err     error
 	crashed bool
 	version string // version this change tried to establish ("" for delete)
+	// a load performed beside the changes of a phase: not a change; loadMixture describes an incomplete configuration it was given
+	isLoad      bool
+	loadMixture string
 }
 
 func c15Describe(outs []c15Outcome) string {
